@@ -11,4 +11,10 @@ TEXT = {
         "level_text": "Generated-input search: 40k (quick) / 3M (thorough) URLs over every host kind, port and the full path alphabet are converted to a multiaddr and back (also after the multiaddr travelled as bytes and as text) and compared field by field; multiaddr forms (http, https, tls/http, legacy httpath) are converted and compared with the expected URL; address lists with nils, duplicates and permutations are checked against set-theoretic specifications of FindHTTPAddrs, FilterPublic, CleanPeerAddrInfo and MultiaddrsEqual. Exploration, not proof: held on every generated case.",
         "level_note": "Trusted: net/url parsing, go-multiaddr parsing, the harness's own classification of IP ranges as clearly public / clearly non-public (special-purpose ranges and nil entries are not asserted for FilterPublic). IPv6 zones and IPv4-mapped IPv6 hosts are outside the quantifier. The end-to-end request-target part runs in the h26 world once built.",
     },
+    "C11": {
+        "engine": "h23",
+        "technique": "property-based testing (rapid) against an independent specification of the wire format; byte-mutation decoding with an allocation meter; native go fuzzing (thorough)",
+        "level_text": "Generated-input search. Round trip: multisets of 1..6 protocols (all kinds, unknown codes up to 2^62, payloads to 900 B, repeated IDs) in two construction orders are encoded and compared with an independently written encoder (hand-written varint + DAG-CBOR), decoded, compared, looked up by ID and re-encoded. Decoder: raw bytes, mutated valid encodings, hostile varint / CBOR length prefixes up to MaxMetadataSize; oracle = no panic, input untouched, runtime TotalAlloc delta <= 64*len+64KiB, success implies re-encoding equals the input. Thorough adds coverage-guided native fuzzing of the same oracle. Found and led to 5 fix commits; one third-party allocation behaviour stays a known finding.",
+        "level_note": "Trusted: the harness's own encoder of the wire format (written from the IPNI spec and multicodec table), runtime.MemStats as allocation meter (single goroutine). KF-C11-1 region (graphsync CBOR declaring a string longer than the remaining input) is recognised by an independent CBOR walk, counted in coverage.excluded_known and still bounded by 3x declared length.",
+    },
 }
